@@ -14,6 +14,9 @@ import (
 // Analysis runs every rule on one loaded configuration.
 type Analysis struct {
 	counters  map[*ssa.Global]bool   // cache of isCounter
+	predFixed map[int]int64          // parameters fixed for the predicate being classified (semanticPredicateFixed)
+	initBuilt int                    // lookup maps built during package initialisation (T3)
+	inertFns  map[*ssa.Function]bool // cache of inertFn
 	calledFns map[*ssa.Function]bool // functions some non-test module code calls or uses as a value (counterDiscipline)
 	clsBusy   map[ssa.Value]bool     // classifyErr: values being classified (recursion guard)
 	genPairs  *pairTable             // generator table written as an array of {stem, variable} structs
